@@ -481,6 +481,68 @@ fn run_int(base: i64, steps: &[i64], out: &mut JobOut) {
     }
 }
 
+/// A very long f64 axis (70000 / 140000 knots) whose knots are far denser than single precision can
+/// resolve (16 knots per f32 value), unevenly spaced: for sampled intervals a twin poisoned outside
+/// the bracket must give the same bits for queries at the knot, next to it and inside the interval.
+fn run_long_dense(n: usize, out: &mut JobOut) {
+    use ndarray::Array1;
+    use ndarray_interp::interp1d::{Interp1DBuilder, Linear};
+    // 2^-17 apart around 1024 (f32 resolution there: 2^-13), every 7th knot shifted by 2^-19, every
+    // 1000th interval 40 times longer
+    let mut x: Vec<f64> = Vec::with_capacity(n);
+    let mut v = 1024.0f64;
+    for i in 0..n {
+        x.push(if i % 7 == 3 { v + 2.0f64.powi(-19) } else { v });
+        v += if i % 1000 == 999 { 40.0 * 2.0f64.powi(-17) } else { 2.0f64.powi(-17) };
+    }
+    assert!(x.windows(2).all(|w| w[0] < w[1]));
+    let val = |i: usize| -> f64 { [5.0, -3.0, 8.0, 0.5, 12.0, -7.0, 4.0][i % 7] + (i % 13) as f64 * 0.25 };
+    let xa = Array1::from(x.clone());
+    let y0: Array1<f64> = (0..n).map(val).collect();
+    let key = format!("long-dense:n{n}");
+    let Ok(Ok(base)) = catch(|| Interp1DBuilder::new(y0.view()).x(xa.view()).strategy(Linear::new()).build()) else {
+        out.violate(format!("{key}:build"), "valid long axis not accepted", Json::Null);
+        return;
+    };
+    out.states += 1;
+    // sampled brackets: the first and last 40, around every 1000th (long) interval, and a stride through the axis
+    let mut brackets: Vec<usize> = (0..40).chain(n - 41..n - 1).collect();
+    for k in (999..n - 1).step_by(1000).take(30) {
+        brackets.extend([k - 1, k, k + 1]);
+    }
+    brackets.extend((0..n - 1).step_by(n / 257));
+    brackets.sort();
+    brackets.dedup();
+    let mut yt = y0.clone();
+    for &i in &brackets {
+        // poison everything outside the bracket within a window (the rest far away stays: cheaper, and a
+        // lookup that is off by more than the window still reads a wrong row with a different value)
+        let (lo, hi) = (i.saturating_sub(64), (i + 66).min(n));
+        for r in lo..hi {
+            if r != i && r != i + 1 {
+                yt[r] = f64::NAN;
+            }
+        }
+        let twin = Interp1DBuilder::new(yt.view()).x(xa.view()).strategy(Linear::new()).build().expect("valid");
+        let h = x[i + 1] - x[i];
+        for q in [x[i], x[i].next_up(), x[i] + 0.25 * h, x[i] + 0.5 * h, x[i + 1].next_down()] {
+            let (a, b) = (catch(|| base.interp_scalar(q)), catch(|| twin.interp_scalar(q)));
+            out.evals += 1;
+            out.nontrivial += 1;
+            out.transitions += 2;
+            let same = matches!((&a, &b), (Ok(Ok(u)), Ok(Ok(v))) if u.to_bits() == v.to_bits());
+            if !same {
+                out.violate(format!("{key}:bracket{i}"), format!("Linear over a dense axis of {n} f64 knots: q = {q:e} (bracket {i}) gives {a:?}, but {b:?} when the 128 rows around the bracket are set to NaN"), Json::Int(i as i128));
+                break;
+            }
+        }
+        for r in lo..hi {
+            yt[r] = y0[r];
+        }
+    }
+    out.sample = Some(Json::str(&key));
+}
+
 fn body(ctx: &Ctx) -> (Summary, Meta) {
     let quick = ctx.quick();
     let mut jobs = vec![];
@@ -542,8 +604,13 @@ fn body(ctx: &Ctx) -> (Summary, Meta) {
         run_int(j.0, &j.1, &mut out);
         out
     }));
+    sum.merge(run_jobs(ctx, "long-dense-axes", &[70_000usize, 140_000], |n| format!("long-dense:n{n}"), |n| {
+        let mut out = JobOut::default();
+        run_long_dense(*n, &mut out);
+        out
+    }));
     let meta = Meta {
-        rule: "for every axis / grid: a base interpolator and twins that differ only outside the bracket: every single non-bracketing data row (2-D: node, x-row, y-column) set to NaN, +inf, -inf, 7.5, all non-bracketing rows at once, and every non-bracketing axis knot moved to 2-4 places strictly between its neighbours (incl. 1 ulp from them, end knots far out). The whole ascending query list (3 outside below, per interval knot/+1ulp/quarters/-1ulp, last knot, 3 outside above) is evaluated in one call on base and twin and compared bit for bit wherever the bracket (C11 convention x[i] <= q < x[i+1]) does not touch the change. Every such comparison is non-trivial. Phase i64-axes-beyond-2^53: i64 axes with 4 / 9 / 33 knots (unit steps, mixed steps, one wide interval) based at 0, 2^53, 2^60+1, -2^62: per interval (cell) a twin poisoned everywhere outside the bracket, every integer query of the interval, Linear and Bilinear (both orientations).".into(),
+        rule: "for every axis / grid: a base interpolator and twins that differ only outside the bracket: every single non-bracketing data row (2-D: node, x-row, y-column) set to NaN, +inf, -inf, 7.5, all non-bracketing rows at once, and every non-bracketing axis knot moved to 2-4 places strictly between its neighbours (incl. 1 ulp from them, end knots far out). The whole ascending query list (3 outside below, per interval knot/+1ulp/quarters/-1ulp, last knot, 3 outside above) is evaluated in one call on base and twin and compared bit for bit wherever the bracket (C11 convention x[i] <= q < x[i+1]) does not touch the change. Every such comparison is non-trivial. Phase long-dense-axes: f64 axes of 70000 / 140000 unevenly spaced knots 2^-17 apart near 1024 (16 knots per f32 value), about 450 sampled brackets each with the 128 surrounding rows poisoned. Phase i64-axes-beyond-2^53: i64 axes with 4 / 9 / 33 knots (unit steps, mixed steps, one wide interval) based at 0, 2^53, 2^60+1, -2^62: per interval (cell) a twin poisoned everywhere outside the bracket, every integer query of the interval, Linear and Bilinear (both orientations).".into(),
         bounds: format!("{njobs} (type, axis/grid) jobs; tier {}", ctx.tier.name()),
         assumptions: vec!["the bracket of a query exactly at an interior knot x[i] is (i, i+1), as C11 specifies".into()],
         extra: vec![],
